@@ -16,6 +16,8 @@ pub enum Op {
     TryPushFront(Plan),
     /// k times TryPush with the same plan
     PushMany(u8, Plan),
+    /// `Extend::extend` with k children (ordered collections; elsewhere = PushMany)
+    Extend(u8, Plan),
     /// one poll with task waker k
     Poll(u8),
     /// poll with task waker k while items come, at most n polls
